@@ -108,7 +108,7 @@ Proof.
   assert (Hnj : 1 <= n_jobs (c s)) by (destruct H1 as [[A _] _ _ _ _]; exact A).
   assert (Hraw : head_kept s (fst (step_raw true s e)) /\ want (fst (step_raw true s e)) = want s /\
                  snd (step_raw true s e) = None).
-  { destruct e as [cf n f|b|t o|t b| | | ]; try destruct Hi; cbn [step_raw].
+  { destruct e as [cf n f|b|t o|t b| | | |b0]; try destruct Hi; cbn [step_raw].
     - cbn [wf_ev] in Hwf. destruct (phase s) eqn:Hph; cbn [fst snd]; try (split; [apply head_kept_refl | auto]).
       + pose proof (dispatch_one_batch_shape s b false Hnj Hwf) as Hsh.
         destruct (dispatch_one_batch s b false) as [s1 r]. cbn [fst snd] in Hsh.
